@@ -8,6 +8,8 @@
 // returns.  The exported spans are dumped only at the very end of the case, so anything the SDK kept by
 // reference shows up as an ASan report or as a changed export.
 #include <algorithm>
+#include <atomic>
+#include <thread>
 #include <chrono>
 #include <cstring>
 #include <map>
@@ -330,7 +332,7 @@ static void print_ctx(const trace::SpanContext &c, Out &o)
 }
 
 static void print_span(const tsdk::SpanData &d, const trace::SpanContext &span_ctx, const Window &wstart, const Window &wdur,
-                       const std::vector<Window> &wevents, Clocked &ck, Out &o)
+                       const std::vector<Window> &wevents, size_t par_events, Clocked &ck, Out &o)
 {
   o.tag("N").bytes(std::string(d.GetName().data(), d.GetName().size())).num(static_cast<int>(d.GetSpanKind()));
   ck.put(d.GetStartTime().time_since_epoch().count(), wstart, o);
@@ -339,9 +341,18 @@ static void print_span(const tsdk::SpanData &d, const trace::SpanContext &span_c
   o.boolean(d.GetSpanContext() == span_ctx && d.GetSpanContext().IsValid() && d.GetFlags() == span_ctx.trace_flags());
   o.tag("|").tag("A");
   print_map(d.GetAttributes(), o);
+  // the first [par_events] events were added by concurrent threads: grouped by the first byte of the name
+  // (= the issuing thread), order within a group kept
+  std::vector<const tsdk::SpanDataEvent *> evs;
+  for (auto &e : d.GetEvents()) evs.push_back(&e);
+  std::stable_sort(evs.begin(), evs.begin() + std::min(par_events, evs.size()), [](const tsdk::SpanDataEvent *a, const tsdk::SpanDataEvent *b) {
+    std::string x = a->GetName(), y = b->GetName();
+    return (x.empty() ? -1 : static_cast<unsigned char>(x[0])) < (y.empty() ? -1 : static_cast<unsigned char>(y[0]));
+  });
   size_t k = 0;
-  for (auto &e : d.GetEvents())
+  for (auto *ep : evs)
   {
+    auto &e = *ep;
     o.tag("|").tag("E").bytes(e.GetName());
     Window w = k < wevents.size() ? wevents[k] : Window{0, -1, false};
     ck.put(e.GetTimestamp().time_since_epoch().count(), w, o);
@@ -371,6 +382,96 @@ static void scribble(tsdk::SpanData &d)
   d.SetAttribute("scribbled", true);
   d.AddEvent("scribbled", common::SystemTimestamp(std::chrono::nanoseconds(1)));
   d.SetDuration(std::chrono::nanoseconds(-1));
+}
+
+// ------------------------------------------------------------------ one operation
+struct OpCtx
+{
+  std::vector<bool> q;            // answers of IsRecording
+  std::vector<Window> wevents;    // the window of every AddEvent call made while the span had not been ended by this driver
+};
+struct EndNote
+{
+  bool ended = false;
+  Window we_steady{0, 0, true};
+  void note(long long explicit_end, long long lo, long long hi)
+  {
+    if (ended) return;
+    ended = true;
+    if (explicit_end != 0) we_steady = Window{explicit_end, explicit_end, false};
+    else we_steady = Window{lo, hi, true};
+  }
+};
+
+static bool do_op(const Toks &sec, trace::Span &span, OpCtx &cx, EndNote &en, bool allow_end)
+{
+  auto parts    = verif::split_toks(sec, ";");
+  const Toks &h = parts[0];
+  if (h.empty()) return false;
+  Arena A;
+  if (h[0].is_tag("SA"))
+  {
+    if (h.size() < 3 || !is_bytes(h[1]) || parts.size() != 1) return false;
+    common::AttributeValue v;
+    if (!make_val(h, 2, A, v)) return false;
+    nostd::string_view k = A.str(h[1].s);
+    span.SetAttribute(k, v);
+  }
+  else if (h[0].is_tag("EV0") || h[0].is_tag("EVT") || h[0].is_tag("EVA") || h[0].is_tag("EVTA"))
+  {
+    bool has_ts = h[0].is_tag("EVT") || h[0].is_tag("EVTA"), has_a = h[0].is_tag("EVA") || h[0].is_tag("EVTA");
+    if (h.size() != (has_ts ? 3u : 2u) || !is_bytes(h[1]) || (has_ts && !is_int(h[2])) || (!has_a && parts.size() != 1)) return false;
+    KV kv;
+    if (!make_kv(parts, A, kv)) return false;
+    nostd::string_view n = A.str(h[1].s);
+    Window w{sys_now(), 0, !has_ts};
+    if (has_ts && has_a) span.AddEvent(n, common::SystemTimestamp(std::chrono::nanoseconds(h[2].as_ll())), kv);
+    else if (has_ts) span.AddEvent(n, common::SystemTimestamp(std::chrono::nanoseconds(h[2].as_ll())));
+    else if (has_a) span.AddEvent(n, kv);
+    else span.AddEvent(n);
+    w.hi = sys_now();
+    if (!en.ended) cx.wevents.push_back(w);
+    kv.trash();
+  }
+  else if (h[0].is_tag("SS"))
+  {
+    if (h.size() != 3 || !is_int(h[1]) || !is_bytes(h[2]) || parts.size() != 1) return false;
+    nostd::string_view d = A.str(h[2].s);
+    span.SetStatus(static_cast<trace::StatusCode>(h[1].as_ll()), d);
+  }
+  else if (h[0].is_tag("UN"))
+  {
+    if (h.size() != 2 || !is_bytes(h[1]) || parts.size() != 1) return false;
+    nostd::string_view n = A.str(h[1].s);
+    span.UpdateName(n);
+  }
+  else if (h[0].is_tag("END"))
+  {
+    if (!allow_end || h.size() != 2 || !is_int(h[1]) || parts.size() != 1) return false;
+    trace::EndSpanOptions eo;
+    if (h[1].as_ll() != 0) eo.end_steady_time = common::SteadyTimestamp(std::chrono::nanoseconds(h[1].as_ll()));
+    long long lo = steady_now();
+    span.End(eo);
+    en.note(h[1].as_ll(), lo, steady_now());
+  }
+  else if (h[0].is_tag("IR"))
+  {
+    if (h.size() != 1 || parts.size() != 1) return false;
+    cx.q.push_back(span.IsRecording());
+  }
+  else return false;
+  return true;
+}
+
+// thread i may only write keys / add events whose first byte is the digit i; only thread 0 renames, sets the status, asks
+static bool thread_op_ok(const Toks &sec, size_t ti)
+{
+  if (sec.empty()) return false;
+  const Tok &t = sec[0];
+  if (t.is_tag("SA") || t.is_tag("EV0") || t.is_tag("EVT") || t.is_tag("EVA") || t.is_tag("EVTA"))
+    return sec.size() >= 2 && is_bytes(sec[1]) && !sec[1].s.empty() && sec[1].s[0] == char('0' + ti);
+  if (t.is_tag("SS") || t.is_tag("UN") || t.is_tag("IR")) return ti == 0;
+  return false;
 }
 
 // ------------------------------------------------------------------ one case
@@ -474,74 +575,59 @@ static bool run_case(const Toks &t, Out &o)
   trace::SpanContext span_ctx = span->GetContext();
 
   // operations
-  std::vector<bool> q;
-  std::vector<Window> wevents;
-  bool ended = false;
-  Window we_steady{0, 0, true};
-  auto note_end = [&](long long explicit_end, long long lo, long long hi) {
-    if (ended) return;
-    ended = true;
-    if (explicit_end != 0) we_steady = Window{explicit_end, explicit_end, false};
-    else we_steady = Window{lo, hi, true};
-  };
-  for (size_t si = next; si < secs.size(); si++)
+  OpCtx seq;
+  EndNote en;
+  size_t par_events = 0;
+  if (next < secs.size() && secs[next].size() == 1 && secs[next][0].is_tag("PAR"))
   {
-    auto parts    = verif::split_toks(secs[si], ";");
-    const Toks &h = parts[0];
-    if (h.empty()) return false;
-    Arena A;
-    if (h[0].is_tag("SA"))
+    // PAR | TH | op.. | TH | op.. | SEQ | op..
+    std::vector<std::vector<const Toks *>> threads;
+    size_t si = next + 1;
+    bool seen_seq = false;
+    for (; si < secs.size(); si++)
     {
-      if (h.size() < 3 || !is_bytes(h[1]) || parts.size() != 1) return false;
-      common::AttributeValue v;
-      if (!make_val(h, 2, A, v)) return false;
-      nostd::string_view k = A.str(h[1].s);
-      span->SetAttribute(k, v);
+      const Toks &x = secs[si];
+      if (x.size() == 1 && x[0].is_tag("SEQ")) { seen_seq = true; si++; break; }
+      if (x.size() == 1 && x[0].is_tag("TH")) { threads.emplace_back(); continue; }
+      if (threads.empty()) return false;
+      threads.back().push_back(&x);
     }
-    else if (h[0].is_tag("EV0") || h[0].is_tag("EVT") || h[0].is_tag("EVA") || h[0].is_tag("EVTA"))
+    if (!seen_seq || threads.empty() || threads.size() > 4) return false;
+    for (size_t ti = 0; ti < threads.size(); ti++)
+      for (const Toks *x : threads[ti])
+        if (!thread_op_ok(*x, ti)) return false;
+    std::vector<OpCtx> cx(threads.size());
+    std::vector<char> ok(threads.size(), 1);
+    std::atomic<size_t> ready{0};
+    std::atomic<bool> go{false};
+    std::vector<std::thread> th;
+    trace::Span *sp = span.get();
+    for (size_t ti = 0; ti < threads.size(); ti++)
+      th.emplace_back([&, ti]() {
+        ready.fetch_add(1);
+        while (!go.load()) {}
+        EndNote unused;
+        for (const Toks *x : threads[ti])
+          if (!do_op(*x, *sp, cx[ti], unused, false)) ok[ti] = 0;
+      });
+    while (ready.load() < threads.size()) {}
+    go.store(true);
+    for (auto &t : th) t.join();
+    for (size_t ti = 0; ti < threads.size(); ti++)
     {
-      bool has_ts = h[0].is_tag("EVT") || h[0].is_tag("EVTA"), has_a = h[0].is_tag("EVA") || h[0].is_tag("EVTA");
-      if (h.size() != (has_ts ? 3u : 2u) || !is_bytes(h[1]) || (has_ts && !is_int(h[2])) || (!has_a && parts.size() != 1)) return false;
-      KV kv;
-      if (!make_kv(parts, A, kv)) return false;
-      nostd::string_view n = A.str(h[1].s);
-      Window w{sys_now(), 0, !has_ts};
-      if (has_ts && has_a) span->AddEvent(n, common::SystemTimestamp(std::chrono::nanoseconds(h[2].as_ll())), kv);
-      else if (has_ts) span->AddEvent(n, common::SystemTimestamp(std::chrono::nanoseconds(h[2].as_ll())));
-      else if (has_a) span->AddEvent(n, kv);
-      else span->AddEvent(n);
-      w.hi = sys_now();
-      if (!ended) wevents.push_back(w);
-      kv.trash();
+      if (!ok[ti]) return false;
+      for (bool b : cx[ti].q) seq.q.push_back(b);
+      for (auto &w : cx[ti].wevents) seq.wevents.push_back(w);
     }
-    else if (h[0].is_tag("SS"))
-    {
-      if (h.size() != 3 || !is_int(h[1]) || !is_bytes(h[2]) || parts.size() != 1) return false;
-      nostd::string_view d = A.str(h[2].s);
-      span->SetStatus(static_cast<trace::StatusCode>(h[1].as_ll()), d);
-    }
-    else if (h[0].is_tag("UN"))
-    {
-      if (h.size() != 2 || !is_bytes(h[1]) || parts.size() != 1) return false;
-      nostd::string_view n = A.str(h[1].s);
-      span->UpdateName(n);
-    }
-    else if (h[0].is_tag("END"))
-    {
-      if (h.size() != 2 || !is_int(h[1]) || parts.size() != 1) return false;
-      trace::EndSpanOptions eo;
-      if (h[1].as_ll() != 0) eo.end_steady_time = common::SteadyTimestamp(std::chrono::nanoseconds(h[1].as_ll()));
-      long long lo = steady_now();
-      span->End(eo);
-      note_end(h[1].as_ll(), lo, steady_now());
-    }
-    else if (h[0].is_tag("IR"))
-    {
-      if (h.size() != 1 || parts.size() != 1) return false;
-      q.push_back(span->IsRecording());
-    }
-    else return false;
+    par_events = seq.wevents.size();
+    next = si;
   }
+  for (size_t si = next; si < secs.size(); si++)
+    if (!do_op(secs[si], *span, seq, en, true)) return false;
+  std::vector<bool> &q            = seq.q;
+  std::vector<Window> &wevents    = seq.wevents;
+  auto note_end = [&](long long explicit_end, long long lo, long long hi) { en.note(explicit_end, lo, hi); };
+  Window &we_steady = en.we_steady;
   {
     long long lo = steady_now();
     span         = nostd::shared_ptr<trace::Span>();      // ~Span: End()
@@ -568,7 +654,7 @@ static bool run_case(const Toks &t, Out &o)
       first_span = false;
       tsdk::SpanData *d = static_cast<tsdk::SpanData *>(r.get());
       if (d == nullptr) { o.tag("NULL_RECORDABLE"); continue; }
-      print_span(*d, span_ctx, wstart, wdur, wevents, ck, o);
+      print_span(*d, span_ctx, wstart, wdur, wevents, par_events, ck, o);
       scribble(*d);
     }
     ck.is_first = false;
